@@ -105,6 +105,16 @@ def run(ctx):
                     a10 = True
     if not a10:
         ob4.refute("a10-or", "the auto-precharge flag is not OR-ed onto column bit 10 of cmd.a", None)
+    # a partial driver of cmd.a (cmd.a[i] / cmd.a[i:j] <= ...) that is not confined to column commands overrides those bits of the ROW of an activate too
+    for l in bm.leaves:
+        if l.kind == "assign" and isinstance(l.target, Op) and l.target.op in ("index", "slice") and key(l.target.args[0]) == "cmd.a" and l.inst == "":
+            sel_ = [k_ for k_ in bm.guard_keys(l, False) if "row_col_n_addr_sel" in k_ or "row_open" in k_]
+            ob1.instance("partial driver of cmd.a", {"leaf": str(l)[:160], "confined to a mode by": sel_})
+            if not sel_ and any(x.endswith(".addr") for x in support(l.value)):
+                ob1.unknown("%s is assigned from the queued address in every mode (%s): whether the row bits survive is not decided" % (key(l.target), str(l)[:120]))
+            elif not sel_:
+                ob1.refute("cmd.a-bit-override", "%s is assigned in every mode (%s): the later assignment wins, so the same bit(s) of the row address of an ACTIVATE are "
+                           "replaced as well - two rows that differ only there open the same DRAM row" % (key(l.target), str(l)[:120]), l.loc)
     # the terms the bank machine REALLY drives on cmd.a (after inlining of local wires; a wire narrower than its value shows up as trunc(..)):
     # they must be, bit for bit, the slicer's row / column of the queue head - checked per valuation below
     bm_col = bm_row = None
